@@ -253,7 +253,7 @@ func init() {
 		}
 		out = append(out, Job{Pkg: "geometry", Harness: "H_Search_Moved", Params: []int{4, 2, 0, 0}, Timeout: 60, Combine: true, NoCover: true})
 		// S-template: concrete layouts with the real constants, symbolic query rectangle
-		for _, t := range [][3]int{{0, 257, 2}, {1, 300, 2}, {2, 257, 2}, {2, 257, 1}, {0, 256, 2}, {0, 258, 2}} {
+		for _, t := range [][3]int{{0, 257, 2}, {1, 300, 2}, {2, 257, 2}, {2, 257, 1}, {0, 256, 2}, {0, 258, 2}, {0, 40, 1}, {1, 40, 1}, {0, 300, 1}, {3, 40, 1}, {3, 40, 2}, {3, 100, 1}} {
 			out = append(out, Job{Pkg: "geometry", Harness: "H_Search_Template", Params: []int{t[0], t[1], t[2]}, Timeout: 120, Unwind: 600, NoCover: t[1] != 257,
 				Note: "S-template: concrete layout, real node constants (multi-level trees, depth-limit buckets, 2-byte item encodings), every query rectangle"})
 		}
@@ -512,6 +512,111 @@ func init() {
 				}
 			}
 		}
+		return out
+	}
+}
+
+func init() {
+	propMeta["C17"] = PropMeta{
+		Bounds: map[string]interface{}{
+			"quick":    "writers of Point, PointZ, SimplePoint, LineString (2..3 positions, 0..2 extra ordinates), Polygon (exterior 0/2/3 + hole 0/3, 0..2 extra ordinates threaded across rings), Rect, Circle, Feature, GeometryCollection, FeatureCollection; one position at a time (and z / radius) ranges over ALL doubles including NaN and both infinities, the others over all finite values; prefixes of length 0..3 with spare capacity 0..8 and arbitrary prefix bytes",
+			"thorough": "same",
+		},
+		Outside:     []string{"MultiPoint / MultiLineString / MultiPolygon writers (they re-extract child coordinates through gjson)", "member text (NewFeature with members, appendJSONExtra with members): gjson / sjson / pretty", "the digits strconv.AppendFloat produces (opaque token per value; -0 and +0 are not distinguished)", "objects built by Parse"},
+		Stubs:       []string{"strconv.AppendFloat: appends one opaque token carrying its argument; obligation that the argument is finite at every call", "strings.Index on constants"},
+		Assumptions: commonAssumptions,
+	}
+	jobTables["C17"] = func(tier string) []Job {
+		var out []Job
+		add := func(kind, n, m, dims, anyAt, plen, spare int) {
+			out = append(out, Job{Pkg: "geojson", Harness: "H_JSON", Params: []int{kind, n, m, dims, anyAt, plen, spare}, Timeout: 60, Combine: true, Abstract: true, NoCover: anyAt > 0})
+		}
+		for _, ps := range [][2]int{{0, 0}, {2, 0}, {1, 8}, {3, 1}} {
+			add(0, 0, 0, 0, 0, ps[0], ps[1])
+			add(0, 0, 0, 1, 0, ps[0], ps[1])
+			add(1, 0, 0, 0, 0, ps[0], ps[1])
+			add(4, 0, 0, 0, 0, ps[0], ps[1])
+			add(4, 0, 0, 0, 1, ps[0], ps[1])
+			add(5, 0, 0, 0, 0, ps[0], ps[1])
+		}
+		for dims := 0; dims <= 2; dims++ {
+			for anyAt := -1; anyAt <= 2; anyAt++ {
+				add(2, 3, 0, dims, anyAt, 1, 4)
+				add(6, 2, 0, dims, anyAt, 0, 0)
+			}
+			add(2, 2, 0, dims, 1, 2, 0)
+			add(3, 3, 3, dims, -1, 1, 2)
+			add(3, 3, 3, dims, 0, 0, 0)
+			add(3, 3, 3, dims, 101, 0, 3)
+			add(3, 3, 0, dims, 2, 2, 2)
+			add(3, 2, 0, dims, -1, 0, 0) // empty polygon
+			add(3, 0, 0, 0, -1, 1, 1)
+			add(3, 3, -1, dims, -1, 1, 1) // hole with no positions
+			add(2, 0, 0, dims, -1, 0, 1)  // line with no positions
+			add(2, 1, 0, dims, 0, 2, 0)   // line with one position
+			add(6, 0, 0, dims, -1, 0, 0)  // feature wrapping an empty line
+			add(7, 3, 3, dims, 0, 1, 3)
+			add(8, 3, 0, dims, 0, 0, 2)
+		}
+		return out
+	}
+}
+
+func matrixJobs(freeze int, full bool) []Job {
+	var out []Job
+	c := []string{fnRaycast, fnSegSeg}
+	n := 26
+	for a := 0; a < n; a++ {
+		for b := 0; b < n; b++ {
+			if (a >= 24 || b >= 24) && !(a >= 24 && b < 8 || b >= 24 && a < 4) {
+				continue // member-carrying variants: only against a few partners
+			}
+			// the heavy pairs (indexed shapes, circles against polygons) are sampled on the diagonal band unless full
+			heavy := (a >= 20 || a == 10 || a == 9) && (b >= 20 || b == 7 || b == 10 || b == 19)
+			if heavy && !full && (a+b)%3 != 0 {
+				continue
+			}
+			out = append(out, Job{Pkg: "geojson", Harness: "H_Matrix", Params: []int{a, b, freeze}, Timeout: 120, Scale: true, Contracts: c, NoCover: a+b > 0, Combine: true, Abstract: true})
+		}
+	}
+	return out
+}
+
+func init() {
+	propMeta["C05"] = PropMeta{
+		Bounds: map[string]interface{}{
+			"quick":    "every query method (Empty, Valid, Rect, Center, NumPoints, Members, Spatial, ForEach, Contains, Within, Intersects, Distance, the Spatial sub-interface, JSON/String/AppendJSON for non-Multi kinds, Children/Indexed/Search for collections) on all ordered pairs of 24 constructor-built variants (12 kinds incl. degenerate ones: zero/one-point lines, zero-length segments, NewPolygon(nil), two-point polygon, zero-area rect, zero-radius circle, empty and nil-child collections, nested features, indexed polygon with hole / line / multipolygon) with ALL real coordinates: no reachable panic (bounds, nil, type assertion) and every loop leaves within its unwinding bound (unwinding assertions); segment-index construction and search on concrete layouts of 40..300 points incl. ties and duplicates (real R-tree / quadtree constants); Line.ContainsLine on concrete lines x ALL symbolic lines",
+			"thorough": "all 576 pairs (quick samples a third of the heaviest indexed/circle pairs)",
+		},
+		Outside:     []string{"Parse on arbitrary bytes and JSON of member text (gjson / pretty / sjson / strconv are not encoded)", "geo.* libm calls are assumed total", "polynomial running time is argued from the unwinding bounds, not measured", "objects larger than the listed variants"},
+		Stubs:       []string{"Segment.Raycast, Segment.IntersectsSegment -> specs (proved in-run)", "geo.* trigonometry: opaque finite values"},
+		Assumptions: commonAssumptions,
+	}
+	jobTables["C05"] = func(tier string) []Job {
+		out := segLemmaJobs()
+		out = append(out, matrixJobs(0, tier == "thorough")...)
+		for _, t := range [][3]int{{0, 40, 1}, {1, 40, 1}, {3, 40, 1}, {3, 40, 2}, {0, 257, 2}, {3, 100, 1}} {
+			out = append(out, Job{Pkg: "geometry", Harness: "H_Search_Template", Params: []int{t[0], t[1], t[2]}, Timeout: 120, Unwind: 600, NoCover: true})
+		}
+		lines := [][]ipt{{{0, 0}, {1, 0}, {2, 0}}, {{0, 0}, {2, 0}, {1, 0}, {3, 0}}, {{0, 0}, {2, 2}, {4, 0}, {2, 2}}}
+		for _, l := range lines {
+			params := append([]int{3, 0}, ringParams(l)...)
+			out = append(out, Job{Pkg: "geometry", Harness: "H_API_LineInLine", Params: params, Timeout: 120, Scale: true, Contracts: []string{fnRaycast, fnSegSeg}, NoCover: true})
+		}
+		return out
+	}
+	propMeta["C16"] = PropMeta{
+		Bounds: map[string]interface{}{
+			"quick":    "frame argument: after construction every object and package variable is frozen; every query / serialisation method of the C05 matrix (all ordered pairs of 24 variants, ALL real coordinates) is executed with a monitor on every store, copy, in-place append and PutUint: a store whose target may be a pre-existing object under a satisfiable path condition is a violation. No store to shared memory => any interleaving of such calls is race-free and each returns what it returns alone (also asserted: same call twice, JSON == String == AppendJSON)",
+			"thorough": "all 576 pairs",
+		},
+		Outside:     []string{"methods that reach gjson / sjson / pretty (Multi* writers, member text, Parse)", "stores inside stubbed library functions (libm, strconv) are assumed absent", "the schedule itself is not explored: the claim is the absence of writes, from which race freedom follows"},
+		Stubs:       []string{"Segment.Raycast, Segment.IntersectsSegment -> specs (proved in-run)"},
+		Assumptions: commonAssumptions,
+	}
+	jobTables["C16"] = func(tier string) []Job {
+		out := segLemmaJobs()
+		out = append(out, matrixJobs(1, tier == "thorough")...)
 		return out
 	}
 }
